@@ -1,16 +1,17 @@
-//! vh-core: correspondence harness driving the real varpulis code in-process.
-//! usage: vh-core <property> --seed N --tier quick|thorough --out <cases-file>
+//! Correspondence harness entry point (shared by all harness crates).
+//! usage: <harness> <case-set> --seed N --tier quick|thorough --out <cases-file> [--replay FILE]
 //! Writes one case per line (`<op> => <impl result>`) and `<out>.stats.json`.
+//! Exit codes: 0 ok, 2 usage, 3 generator error (a generated input the front end rejects).
 mod util;
-mod c06;
+include!(concat!(env!("OUT_DIR"), "/dispatch.rs"));
 
 fn main() {
     let args: Vec<String> = std::env::args().collect();
     if args.len() < 2 {
-        eprintln!("usage: vh-core <property> --seed N --tier quick|thorough --out FILE");
+        eprintln!("usage: {} <case-set> --seed N --tier quick|thorough --out FILE", args[0]);
         std::process::exit(2);
     }
-    let prop = args[1].clone();
+    let name = args[1].clone();
     let mut seed: u64 = 1;
     let mut tier = "quick".to_string();
     let mut out = "cases.txt".to_string();
@@ -27,9 +28,9 @@ fn main() {
         i += 1;
     }
     let mut ctx = util::Ctx::new(seed, &tier, &out, replay);
-    match prop.as_str() {
-        "C06" | "C07" | "zdd" => c06::run(&mut ctx),
-        _ => { eprintln!("unknown property {prop}"); std::process::exit(2); }
+    if !dispatch(&mut ctx, &name) {
+        eprintln!("unknown case-set {name}");
+        std::process::exit(2);
     }
     ctx.finish();
 }
